@@ -6,10 +6,17 @@ and stop if it resolves to a script variable.  The models are structured so that
 library only through that flag.  That the flag is exactly "Lua binds the identifier to a local" is
 proved for every chunk (`C07_gate_inside`, `C07_gate_outside`, corollaries of C01's resolution theorem
 over the machine of `Scope/Core.lean`); the gate itself is proved for every lint that has a model.
+
+Whole programs: `Std/Prog.lean` models `incorrect_standard_library_use` and `deprecated` as they walk the
+syntax tree (which nodes are visited, the gate, how the name path and the call are read off prefix and
+suffixes, ranges, messages), on top of the lookup / call / access models of C05 and C06.  `C07_std_inside`
+and `C07_std_outside` state the property for these two lints over every chunk and every library.
 -/
 import Selene.Scope.Lints
 import Selene.Std.Access
 import Selene.Props.C01
+import Selene.Std.ProgLemmas
+import Selene.Scope.RefAt
 namespace Selene.Props.C07
 open Selene.Scope Selene.Std Selene.Lua
 
@@ -127,5 +134,92 @@ theorem C07_must_use_outside (isMustUse : List String → Bool) (σ₁ σ₂ : S
           simp only [Option.map_some, Option.some.injEq] at hthis
           simp only [hthis, hrest]
   exact key _ (fun c hc' => hc')
+
+/-! ## The three library lints over whole programs -/
+
+open Selene.Std.Prog in
+/-- the library lints of a program, with the scope analysis of the machine as the gate -/
+def libraryLints (l : SegLib) (allow : List (List String)) (b : Block) : List PDiag :=
+  stdLint l (Core.analyse b).resolvedAt b ++ deprecatedLint l (Core.analyse b).resolvedAt allow b ++
+    mustUseLint l (Core.analyse b).resolvedAt b
+
+open Selene.Std.Prog in
+/-- **C07 (whole programs: every diagnostic is about an unbound root).** For every chunk, library and
+`deprecated.allow` list: each `incorrect_standard_library_use` / `deprecated` / `must_use` diagnostic is about a name
+path whose first segment is the text of an identifier token at which the scope analysis recorded no
+resolved reference. -/
+theorem C07_std_rooted (l : SegLib) (allow : List (List String)) (b : Block) (g : PDiag)
+    (h : g ∈ libraryLints l allow b) :
+    ∃ t : Tok, g.root = t.idx ∧ g.path.head? = some t.text ∧ (Core.analyse b).resolvedAt t.idx = false := by
+  rcases List.mem_append.mp h with h | h
+  · rcases List.mem_append.mp h with h | h
+    · exact stdLint_rooted l _ b g h
+    · exact deprecatedLint_rooted l _ allow b g h
+  · exact mustUseLint_rooted l _ b g h
+
+/-- the first reference at the token of a resolved read is resolved (given that reads agree with the
+first reference at their token — `firstRefCoherent`, evaluated on every program of the run) -/
+theorem resolvedAt_of_read (σ : Core.St) (hco : σ.firstRefCoherent = true) (r : Core.Ref) (hr : r ∈ σ.refs)
+    (hd : r.decl = false) (hw : r.write = false) : σ.resolvedAt r.tok = r.resolved.isSome := by
+  have := (List.all_eq_true.mp hco) r hr
+  simpa [hd, hw] using this
+
+open Selene.Std.Prog in
+/-- **C07 (inside, whole programs).** For every chunk, every library and every `deprecated.allow` list: if
+Lua's scoping rules bind an identifier occurrence to a local, parameter, loop variable, local function or
+`self`, then no `incorrect_standard_library_use`, `deprecated` or `must_use` diagnostic of the program is about a
+use rooted at that occurrence — whatever the library says about the name. -/
+theorem C07_std_inside (l : SegLib) (allow : List (List String)) (b : Block)
+    (hco : (Core.analyse b).firstRefCoherent = true)
+    (oc : Spec.Occ) (hoc : oc ∈ (Spec.resolve b).occs) (hc : SpecProof.counted oc = true)
+    (d : Nat) (hb : oc.binding.map (·.1) = some d) :
+    ∀ g ∈ libraryLints l allow b, g.root ≠ oc.tok := by
+  intro g hg heq
+  obtain ⟨t, ht, _, hR⟩ := C07_std_rooted l allow b g hg
+  obtain ⟨r, hr, htok, hd, hw, hres⟩ := C07_gate_inside b oc hoc hc d hb
+  have := resolvedAt_of_read _ hco r hr hd hw
+  rw [htok, ← heq, ht, hR, hres] at this
+  simp at this
+
+open Selene.Std.Prog in
+/-- **C07 (outside, whole programs).** An expression or call whose root occurrence Lua binds to nothing, the
+name being one no statement of the file assigns as a global, is linted as a function of the library and of
+the node alone: exactly as by the lint that knows no bindings at all (`fun _ => false`). -/
+theorem C07_std_outside (l : SegLib) (allow : List (List String)) (b : Block)
+    (hco : (Core.analyse b).firstRefCoherent = true)
+    (oc : Spec.Occ) (hoc : oc ∈ (Spec.resolve b).occs) (hc : SpecProof.counted oc = true) (hb : oc.binding = none)
+    (hna : ∀ oc' ∈ (Spec.resolve b).occs, SpecProof.assignsGlobal oc' = true → oc'.name ≠ oc.name) :
+    (∀ e : Lua.Expr, exprStart e = oc.tok →
+      stdExpr l (Core.analyse b).resolvedAt e = stdExpr l (fun _ => false) e ∧
+      deprExpr l (Core.analyse b).resolvedAt allow e = deprExpr l (fun _ => false) allow e) ∧
+    (∀ sp p ss, prefixStart p = oc.tok →
+      stdCall l (Core.analyse b).resolvedAt (.mk sp p ss) = stdCall l (fun _ => false) (.mk sp p ss) ∧
+      deprCall l (Core.analyse b).resolvedAt allow (.mk sp p ss) = deprCall l (fun _ => false) allow (.mk sp p ss) ∧
+      mustUseStmt l (Core.analyse b).resolvedAt (.call (.mk sp p ss)) = mustUseStmt l (fun _ => false) (.call (.mk sp p ss))) := by
+  obtain ⟨r, hr, htok, hd, hw, hres⟩ := C07_gate_outside b oc hoc hc hb hna
+  have hR : (Core.analyse b).resolvedAt oc.tok = false := by
+    have := resolvedAt_of_read _ hco r hr hd hw
+    rw [htok, hres] at this
+    simpa using this
+  refine ⟨fun e he => ⟨?_, ?_⟩, fun sp p ss hp => ⟨?_, ?_, ?_⟩⟩
+  · exact stdExpr_congr l _ _ e (by rw [he, hR])
+  · exact deprExpr_congr l _ _ allow e (by rw [he, hR])
+  · exact stdCall_congr l _ _ sp p ss (by rw [hp, hR])
+  · exact deprCall_congr l _ _ allow sp p ss (by rw [hp, hR])
+  · exact mustUseStmt_congr l _ _ sp p ss (by rw [hp, hR])
+
+open Selene.Std.Prog in
+/-- non-vacuity: `local math = {} ; print(math.nope)` — tokens 0…; the library knows `math.floor` and
+`print`; Lua binds the `math` of `math.nope` to the local, the machine is coherent, and the lint is silent;
+the twin without the `local` reports the missing field. -/
+example :
+    let lib : SegLib := { globals := [(["math", "floor"], { kind := .function { args := [] } }), (["print"], { kind := .any })], structs := [] }
+    let use_ : Stmt := .call (.mk ⟨5, 10⟩ (.name ⟨5, "print"⟩) (.cons (.args ⟨6, 10⟩ (.parens ⟨6, 10⟩
+        (.cons (.var (.expr ⟨7, 9⟩ (.name ⟨7, "math"⟩) (.cons (.dot ⟨8, 9⟩ ⟨9, "nope"⟩) .nil))) .nil))) .nil))
+    let bound : Block := .mk none (.cons (.localAssign ⟨0, 4⟩ [⟨1, "math"⟩] (.cons (.tbl ⟨3, 4⟩ .nil) .nil)) (.cons use_ .nil)) .none
+    let free : Block := .mk none (.cons use_ .nil) .none
+    (Core.analyse bound).firstRefCoherent = true ∧ libraryLints lib [] bound = [] ∧
+    (libraryLints lib [] free).map (·.message.1) = ["standard library global `math` does not contain the field `nope`"] := by
+  decide
 
 end Selene.Props.C07
